@@ -57,15 +57,15 @@ def _c(engine, level, ref, technique, text, note):
 CHECKS.update({
     'C04': _c('E2', 'model_checking', 'DESIGN.md §3 C04',
               'explicit-state BFS over match() histories on one live CSSMatch object (state = digest of its memo tables and module-level containers), every transition compared with a fresh matcher on a pristine copy and with a tree fingerprint; plus exhaustive public-API call sequences',
-              'All histories of match(el) calls (every element, any order, repetition) on one live matcher until no new state digest appears (depth cap 6/10), for 13 documents built around each memo table (meta pragma, lang chains, twin forms, radio groups, iframes, class strings, ranges, parentless subtrees, dir=auto) x 24 (thorough 49) selectors; on each transition: history-free answer, namespace map / iframe flag restored, document fingerprint unchanged. API layer: every sequence of <=2 (thorough 3) calls of select/match/filter/closest against first-call answers on pristine copies.',
+              'All histories of match(el) calls (every element, any order, repetition) on one live matcher until no new state digest appears (depth cap 6/10), for 13 documents built around each memo table (meta pragma, lang chains, twin forms, radio groups, iframes, class strings, ranges, parentless subtrees, dir=auto) x 25 (thorough 49) selectors; on each transition: history-free answer, namespace map / iframe flag restored, document fingerprint unchanged. API layer: every sequence of <=2 (thorough 3) calls of select/match/filter/closest against first-call answers on pristine copies.',
               'digest covers vars(matcher) and mutable module/class containers of css_match; documents are API-built; quantifier over documents and selectors is by enumeration of the listed ones.'),
     'C05': _c('E1', 'exploration', 'DESIGN.md §3 C05',
               'bounded-exhaustive enumeration of ordered selector pairs x namespace maps x documents on the real select(), checked against Boolean-algebra laws between its own answers',
-              'Every ordered pair of a 125-selector pool that covers every pseudo-class name in the parser tables (names missing from the pool are added from the tables at run time) x {no map, prefix map, map with default namespace} x five rich documents as html.parser/lxml/html5lib/XHTML/XML: union, :is union, :is = list, :not complement, :not list complement, :where/:matches = :is, compound intersection, monotonicity, document order, and the namespace-neutral forms of the laws. Quick takes the pairs with an HTML-only/state/namespaced/custom member; thorough all pairs.',
+              'Every ordered pair of a 133-selector pool that covers every pseudo-class name in the parser tables (names missing from the pool are added from the tables at run time) x {no map, prefix map, map with default namespace} x five rich documents as html.parser/lxml/html5lib/XHTML/XML: union, :is union, :is = list, :not complement, :not list complement, :where/:matches = :is, compound intersection, monotonicity, document order, and the namespace-neutral forms of the laws. Quick takes the pairs with an HTML-only/state/namespaced/custom member; thorough all pairs.',
               'relational oracle only (what each selector should select is C01/C17); universe = what * selects under the same map.'),
     'C06': _c('E1', 'exploration', 'DESIGN.md §3 C06',
               'bounded-exhaustive enumeration of lexeme words and custom-selector maps on the real compile(), outcome-class oracle',
-              'All words of <=3 (thorough 4) lexemes over a 76-lexeme alphabet (every operator, bracket, quote, escape form incl. NUL/out-of-range/surrogate/EOF, line breaks, function openers, at-rule/pseudo-element starts, comments, custom names, a 4301-digit number, non-ASCII characters that re.I folds onto ASCII), words of <=4 (6) over a 16-lexeme core and <=5 (6) over an attribute/flag core; all custom maps of <=2 entries over 12 keys x 16 values x 10 using patterns. Only SoupSieve / SelectorSyntaxError / NotImplementedError (with @ or ::) / KeyError (two names equal after unescape+lower) may come out.',
+              'All words of <=3 (thorough 4) lexemes over a 84-lexeme alphabet (every operator, bracket, quote, escape form incl. NUL/out-of-range/surrogate/EOF, line breaks, function openers, at-rule/pseudo-element starts, comments, custom names, a 4301-digit number, non-ASCII characters that re.I folds onto ASCII), words of <=4 (6) over a 16-lexeme core and <=5 (6) over an attribute/flag core; all custom maps of <=2 entries over 12 keys x 16 values x 10 using patterns. Only SoupSieve / SelectorSyntaxError / NotImplementedError (with @ or ::) / KeyError (two names equal after unescape+lower) may come out.',
               'nesting depth far below the recursion budget; warnings ignored.'),
     'C07': _c('E5', 'exploration', 'DESIGN.md §3 C07',
               'exhaustive enumeration of pumped string families over every live regex, compile() and attribute matching, with CPU-time growth classification on a doubling ladder',
@@ -77,7 +77,7 @@ CHECKS.update({
               'documents API-built; one open known finding (digit runs beyond the int() limit) is reported as KNOWN-FINDING.'),
     'C09': _c('E1', 'exploration', 'DESIGN.md §3 C09',
               'exhaustive enumeration of lexical respellings (single sites, all pairs, small triples) of AST-generated base selectors on the real compile(), IR-equality and same-selection oracle',
-              '170 base selectors (every attribute operator/flag, namespaces, An+B incl. of S, :lang/:dir/contains lists, combinators, nested :not/:is/:where/:matches/:has) rendered into rewrite sites: whitespace/comment gaps of 7 kinds, identifier escapes (hex, six-digit, backslash, escaped upper case), string quoting/escapes/escaped newline, keyword case. Every single-site rewrite, every two-site combination (quick: bases with <=14 sites), every three-site combination for small bases (thorough).',
+              '113 (thorough 323) base selectors (every attribute operator/flag, namespaces, An+B incl. of S, :lang/:dir/contains lists, combinators, nested :not/:is/:where/:matches/:has) rendered into rewrite sites: whitespace/comment gaps of 7 kinds, identifier escapes (hex, six-digit, backslash, escaped upper case), string quoting/escapes/escaped newline, keyword case. Every single-site rewrite, every two-site combination (quick: bases with <=14 sites), every three-site combination for small bases (thorough).',
               'comments only where CSS allows one without changing tokens; equality is the library\'s own __eq__ (its laws are C15) plus selections on a 4-document corpus.'),
     'C11': _c('E1', 'exploration', 'DESIGN.md §3 C11',
               'exhaustive enumeration of ASCII case variants of every name/value x document materialisations, against the reference case rules',
@@ -93,7 +93,7 @@ CHECKS.update({
               'XHTML meta pragma, odd pragma values and xml:lang on XHTML elements not asserted.'),
     'C14': _c('E3', 'model_checking', 'DESIGN.md §3 C14',
               'stateless exploration of all interleavings of 2-3 real threads up to a preemption bound under an owned scheduler (settrace line/opcode points, semaphore baton), solo-run equality oracle',
-              'All schedules with <=1 preemption (and both starting threads) of 50 operation pairs (every unordered pair of 8 compile operations incl. equal-custom-map aliases and same-pattern pairs; select/match/filter/closest on a shared document; purge) - ~70 000 executions of the real code in quick; thorough adds opcode granularity in the tokenizer, 3 threads, and <=2 preemptions for a core set. Each call must return what it returns alone, raise nothing, and leave a cache whose entries equal fresh parses.',
+              'All schedules with <=1 preemption (and both starting threads) of 58 operation pairs (every unordered pair of 8 compile operations incl. equal-custom-map aliases and same-pattern pairs; select/match/filter/closest on a shared document; purge) - ~80 000 executions of the real code in quick; thorough adds opcode granularity in the tokenizer, 3 threads, and <=2 preemptions for a core set. Each call must return what it returns alone, raise nothing, and leave a cache whose entries equal fresh parses.',
               '<=3 threads, <=2 preemptions, line granularity; C-level switches not modelled; cooperative scheduling hides pure data races without observable effect.'),
     'C15': _c('E2', 'model_checking', 'DESIGN.md §3 C15',
               'explicit-state BFS over compile/purge/pass-through/fill histories on the real cache deduplicated by an LRU model, every transition checked against a fresh uncached parse; exhaustive value laws over argument tuples',
